@@ -212,6 +212,10 @@ func (e *Engine) computeNeedPrivate() {
 // privateRequires: the inferred preconditions of fn, as spec clauses.
 func (e *Engine) privateRequires(fn *ssa.Function) []string {
 	var out []string
+	if walkerEntry[fn.Name()] && fn.Signature.Recv() != nil {
+		// entry points receive nodes of the real tree: nothing may be assumed private there
+		return nil
+	}
 	for i, p := range fn.Params {
 		if e.needPrivate[privKey{fn, i}] && p.Name() != "" && p.Name() != "_" {
 			out = append(out, fmt.Sprintf("@written-node-is-a-private-copy-%s private(%s)", p.Name(), p.Name()))
